@@ -140,7 +140,20 @@ func (fc *fnCtx) queryPrefix() string {
 	for _, o := range fc.obligs {
 		collectAtoms(o.goal, strs, tys)
 	}
-	sb.WriteString(fc.e.sorts.decls())
+	var body strings.Builder
+	for _, b := range ths {
+		body.WriteString(b.text)
+	}
+	for _, d := range fc.decls {
+		body.WriteString(d)
+	}
+	for _, a := range fc.assumes {
+		body.WriteString(a)
+	}
+	for _, o := range fc.obligs {
+		body.WriteString(o.goal)
+	}
+	sb.WriteString(fc.e.sorts.declsFor(body.String()))
 	for _, s := range sortedKeys(strs) {
 		fmt.Fprintf(&sb, "(declare-fun %s () Str)\n", s)
 	}
@@ -329,6 +342,13 @@ func decide(o *oblig, file string, opt dischargeOpts) {
 	}
 	first := runSolver(ctx, solvers[0], file, opt.quickSecs)
 	o.secs = first.secs
+	if o.baseline && first.result != "unsat" && first.result != "error" {
+		o.result, o.solver, o.model = first.result, first.solver, first.model
+		if o.result == "timeout" {
+			o.result = "unknown"
+		}
+		return
+	}
 	if first.result == "unsat" && !opt.all {
 		o.result, o.solver = "unsat", first.solver
 		return
